@@ -154,6 +154,7 @@ const (
 	RecvFresh   = 0 // constructor result
 	RecvNil     = 1 // typed nil receiver
 	RecvQueried = 2 // constructor result whose query methods were all called before Decode
+	RecvCopy    = 3 // a by-value copy of a constructor result (the caller holds the decoder by value)
 )
 
 // DecodeMode decodes s with a receiver obtained as the mode says.  The
@@ -175,11 +176,125 @@ func DecodeMode(k Kind, s string, mode int) (o Obj, recv Obj, err error, pan *Pa
 			tv.Observe()
 		}
 		recv.IsEmpty()
+	case RecvCopy:
+		recv = CopyOf(New(k))
 	default:
 		recv = New(k)
 	}
 	o, err, pan = DecodeOn(recv, s)
 	return
+}
+
+// CopyOf returns a handle on a by-value copy of the struct o points to.
+func CopyOf(o Obj) Obj {
+	c := Obj{Kind: o.Kind}
+	switch o.Kind {
+	case K3B:
+		x := *o.B3
+		c.B3 = &x
+	case K3T:
+		x := *o.T3
+		c.T3 = &x
+	case K3E:
+		x := *o.E3
+		c.E3 = &x
+	case K2B:
+		x := *o.B2
+		c.B2 = &x
+	case K2T:
+		x := *o.T2
+		c.T2 = &x
+	case K2E:
+		x := *o.E2
+		c.E2 = &x
+	}
+	return c
+}
+
+// Assemble builds a higher-level object of kind k around parts decoded separately; how selects the way:
+//
+//	0: constructor result, then its embedded lower decoder decodes s (x.Temporal.Decode(s) / x.Base.Decode(s))
+//	1: constructor result whose exported embedded pointer is replaced by a separately decoded lower object
+//	2: struct literal wrapping a separately decoded lower object (optional metrics of the top level Not Defined / absent)
+//
+// s must be a vector of the level just below k.  ok is false when the lower decode failed.
+func Assemble(k Kind, s string, how int) (o Obj, ok bool, pan *Panic) {
+	defer catch(&pan)
+	o = New(k)
+	switch k {
+	case K3T:
+		switch how {
+		case 0:
+			_, err := o.T3.Base.Decode(s)
+			return o, err == nil, nil
+		default:
+			b, err := m3.NewBase().Decode(s)
+			if err != nil {
+				return o, false, nil
+			}
+			if how == 1 {
+				o.T3.Base = b
+			} else {
+				o.T3 = &m3.Temporal{Base: b, E: m3.ExploitabilityNotDefined, RL: m3.RemediationLevelNotDefined, RC: m3.ReportConfidenceNotDefined}
+			}
+			return o, true, nil
+		}
+	case K3E:
+		switch how {
+		case 0:
+			_, err := o.E3.Temporal.Decode(s)
+			return o, err == nil, nil
+		default:
+			t, err := m3.NewTemporal().Decode(s)
+			if err != nil {
+				return o, false, nil
+			}
+			if how == 1 {
+				o.E3.Temporal = t
+			} else {
+				fresh := m3.NewEnvironmental()
+				lit := *fresh
+				lit.Temporal = t
+				o.E3 = &m3.Environmental{Temporal: t, CR: lit.CR, IR: lit.IR, AR: lit.AR, MAV: lit.MAV, MAC: lit.MAC, MPR: lit.MPR, MUI: lit.MUI, MS: lit.MS, MC: lit.MC, MI: lit.MI, MA: lit.MA}
+			}
+			return o, true, nil
+		}
+	case K2T:
+		switch how {
+		case 0:
+			_, err := o.T2.Base.Decode(s)
+			return o, err == nil, nil
+		default:
+			b, err := m2.NewBase().Decode(s)
+			if err != nil {
+				return o, false, nil
+			}
+			if how == 1 {
+				o.T2.Base = b
+			} else {
+				o.T2 = &m2.Temporal{Base: b}
+			}
+			return o, true, nil
+		}
+	case K2E:
+		switch how {
+		case 0:
+			_, err := o.E2.Temporal.Decode(s)
+			return o, err == nil, nil
+		default:
+			t, err := m2.NewTemporal().Decode(s)
+			if err != nil {
+				return o, false, nil
+			}
+			if how == 1 {
+				o.E2.Temporal = t
+			} else {
+				o.E2 = &m2.Environmental{Temporal: t}
+			}
+			return o, true, nil
+		}
+	}
+	return o, false, nil
 }
 
 // AutoMode derives the receiver mode from the string itself (stable, so that a replay uses the same
@@ -190,11 +305,13 @@ func AutoMode(s string) int {
 	for i := 0; i < len(s); i++ {
 		h = (h ^ uint32(s[i])) * 16777619
 	}
-	switch (h >> 7) % 4 {
-	case 2:
+	switch (h >> 7) % 8 {
+	case 2, 3:
 		return RecvNil
-	case 3:
+	case 4, 5:
 		return RecvQueried
+	case 6:
+		return RecvCopy
 	}
 	return RecvFresh
 }
